@@ -38,6 +38,9 @@ pub struct Screened {
     /// representations of a value shows on exactly these
     #[serde(default)]
     pub lossy_normal_exprs: Vec<String>,
+    /// long expressions (0.4 - 2.5 kB): several pool expressions one after the other as a rule sequence
+    #[serde(default)]
+    pub long_exprs: Vec<String>,
 }
 
 pub struct Pools {
@@ -59,6 +62,7 @@ pub struct Pools {
     pub border_pairs: Vec<((i32, i32), (i32, i32))>,
     pub spacing_variants: Vec<(String, String)>,
     pub lossy_normal_exprs: Vec<String>,
+    pub long_exprs: Vec<String>,
     pub instants: Vec<i64>,
     pub data: DataFiles,
 }
@@ -337,8 +341,21 @@ impl Pools {
                 lossy_normal_exprs.push(e.clone());
             }
         }
+        // swarm, sizes: long expressions -- seeded concatenations of 6..40 dense pool expressions
+        let mut long_cands = Vec::new();
+        {
+            let mut rng = Rng::derive(0x10e6, 7, 0);
+            let parts: Vec<&String> = dense_exprs.iter().filter(|e| !e.contains("||") && !e.contains("20") && !e.contains("19") && e.len() < 120).collect();
+            if !parts.is_empty() {
+                for k in [6usize, 8, 12, 12, 16, 24, 40] {
+                    let v: Vec<String> = (0..k).map(|_| (*rng.pick(&parts)).clone()).collect();
+                    long_cands.push(v.join(" ; "));
+                }
+            }
+        }
+        let long_exprs = screen(long_cands, Ctx::Default);
         let panicking_exprs: Vec<String> = excluded.iter().filter(|(_, why)| why.starts_with("sequential evaluation panics")).map(|(e, _)| e.clone()).collect();
-        Screened { exprs, holiday_exprs, easter_exprs, excluded, panicking_exprs, dense_exprs, countries, border_pairs: find_border_pairs(), spacing_variants, lossy_normal_exprs }
+        Screened { exprs, holiday_exprs, easter_exprs, excluded, panicking_exprs, dense_exprs, countries, border_pairs: find_border_pairs(), spacing_variants, lossy_normal_exprs, long_exprs }
     }
 
     pub fn from_screened(s: Screened) -> Pools {
@@ -358,6 +375,7 @@ impl Pools {
             border_pairs: s.border_pairs,
             spacing_variants: s.spacing_variants,
             lossy_normal_exprs: s.lossy_normal_exprs,
+            long_exprs: s.long_exprs,
             instants: instants(),
             data: DataFiles::load(),
         }
